@@ -6,7 +6,7 @@ are run by one `cargo kani` invocation (cheap kernels share the compile step).""
 
 class Job:
     def __init__(self, name, pkg, module, props, tier="quick", cap_s=300, mem_gb=12, group=None,
-                 owner=None, cls="A", slots=1, note="", encodes=(), bounds=""):
+                 owner=None, cls="A", slots=1, note="", encodes=(), bounds="", kargs=()):
         self.name = name              # harness function name
         self.pkg = pkg                # cargo package
         self.module = module          # module path of the harness inside the crate
@@ -21,6 +21,7 @@ class Job:
         self.note = note
         self.encodes = list(encodes)  # real functions symbolically executed
         self.bounds = bounds
+        self.kargs = list(kargs)      # extra cargo-kani flags (part of the cache key)
 
     @property
     def path(self):
@@ -78,6 +79,63 @@ add("k_validate_machine", MB, "machine::verif_kani", ["C12"], cap_s=300, group="
     encodes=["Machine::validate"],
     bounds="0..=3 states; fractions any f64 bit pattern; budgets any u64; State::validate replaced by a ghost "
            "that may reject any one state (the state judgement has its own kernels)")
+
+
+# ---------------------------------------------------------------- framework L0 limit predicates
+FW = "framework::verif_kani"
+add("k_below_padding", MB, FW, ["C02", "C07", "C05"], cap_s=300, group="fw_l0_pad", owner="C01",
+    encodes=["Framework::below_limit_padding", "Framework::below_action_limits"],
+    bounds="any u64 counters below 2^63, any budgets, fractions any real in [0,1], any state limit")
+add("k_below_padding_own", MB, FW, ["C02"], cap_s=900, group="fw_l0_pad_own", owner="C01")
+add("k_below_blocking", MB, FW, ["C03", "C07", "C05"], cap_s=300, group="fw_l0_block", owner="C01",
+    encodes=["Framework::below_limit_blocking", "Framework::below_action_limits"],
+    bounds="virtual clock: any u64 instants in any order, any accumulated durations, fractions any real in [0,1]")
+add("k_below_other", MB, FW, ["C07", "C04", "C05"], cap_s=120, group="fw_l0_other", owner="C01",
+    encodes=["Framework::below_action_limits"], bounds="timer / cancel / no action, any limit")
+
+L1_PROPS = ["C01", "C02", "C03", "C04", "C05", "C07", "C08", "C09", "C10"]
+L1_STUBS = ("leaf contracts proved by the L0 kernels: sample_timeout/duration/limit/value, below_action_limits, "
+            "sample_state (closed form of the uniform draw)")
+for fam, tier, cap in (("fam21", "quick", 600),):
+    add("l1a_transition", MB, FW + "::" + fam, L1_PROPS, tier=tier, cap_s=cap, mem_gb=16, owner="C01", cls="B",
+        group="l1a_" + fam, kargs=["--no-assertion-reach-checks"],
+        encodes=["Framework::transition", "Framework::schedule_action"],
+        bounds="one machine step from any Inv-state, any of the 13 events, family " + fam +
+               " (S states, K alternatives per row, all action kinds/flags/counter specs symbolic); nested "
+               "update_counter replaced by the reference (decided by l1b); " + L1_STUBS)
+    add("l1b_pair", MB, FW + "::" + fam, ["C08", "C10"], tier=tier, cap_s=cap, mem_gb=16, owner="C01", cls="B",
+        group="l1bp_" + fam, kargs=["--no-assertion-reach-checks"],
+        encodes=["Framework::update_counter"],
+        bounds="two machines of one definition in one framework, machine 1 updates its counters after machine 0 "
+               "possibly zeroed its own in the same call; family " + fam + "; " + L1_STUBS)
+    add("l1b_update_counter", MB, FW + "::" + fam, L1_PROPS, tier=tier, cap_s=cap, mem_gb=16, owner="C01", cls="B",
+        group="l1b_" + fam, kargs=["--no-assertion-reach-checks"],
+        encodes=["Framework::update_counter"],
+        bounds="one counter update from any Inv-state, any u64 counter values, family " + fam +
+               "; nested transition(CounterZero) replaced by the reference (decided by l1a); " + L1_STUBS)
+
+
+L2_PROPS = ["C01", "C02", "C03", "C04", "C05", "C07", "C09", "C10"]
+L2_ENC = ["Framework::trigger_events", "Framework::process_event", "Framework::decrement_limit"]
+EVK = ["NormalRecv", "PaddingRecv", "TunnelRecv", "NormalSent", "PaddingSent", "TunnelSent", "BlockingBegin",
+       "BlockingEnd", "TimerBegin", "TimerEnd"]
+add("l2_m0", MB, FW + "::l2", L2_PROPS, tier="quick", cap_s=300, mem_gb=12, owner="C01", cls="B", group="l2_m0",
+    kargs=["--no-assertion-reach-checks"], encodes=L2_ENC,
+    bounds="one call, one fully symbolic event (10 kinds, any usize id), ZERO machines, any time")
+for m, tier, cap in ((1, "thorough", 600), (2, "quick", 900), (3, "thorough", 2400)):
+    for k in range(10):
+        if k in (4, 8, 9):
+            ids = ["i%d" % i for i in range(m)] + ["iu"]
+        else:
+            ids = [""]
+        for ic in ids:
+            name = "l2_m%d_e%d%s" % (m, k, "_" + ic if ic else "")
+            idtxt = {"": "any usize id", "iu": "any id that names no machine"}.get(ic, "id = machine " + ic[1:])
+            add(name, MB, FW + "::l2", L2_PROPS, tier=tier, cap_s=cap, mem_gb=16, owner="C01", cls="B",
+                group=name, kargs=["--no-assertion-reach-checks"], encodes=L2_ENC,
+                bounds="one call reporting one %s event (%s), %d machines, any Inv pre-state, any (also backwards) "
+                       "time; every machine step replaced by the transition contract TC (havoc + ghost record) "
+                       "that L1 proves for the real step" % (EVK[k], idtxt, m))
 
 
 def jobs_for(prop, tier):
